@@ -143,7 +143,9 @@ func loadOverlay(path, repo string) (map[string][]byte, error) {
 
 // run holds the result of analysing one configuration.
 type run struct {
-	Config string
+	VTAChecked int
+	VTAMissing []string
+	Config     string
 	P      *ir.Program
 	Res    *rules.Result
 	Rules  []*rules.Rule
@@ -187,7 +189,15 @@ func analyse(repo string, ov map[string][]byte, tier string, props []string, onl
 		}
 		F := rules.NewFacts(P)
 		res := rules.Run(P, rs, F)
-		out = append(out, &run{Config: c.label, P: P, Res: res, Rules: rs})
+		r := &run{Config: c.label, P: P, Res: res, Rules: rs}
+		if tier == "thorough" && c.label == "native" && ov == nil {
+			n, missing, err := vtaCrossCheck(repo, P, F)
+			r.VTAChecked, r.VTAMissing = n, missing
+			if err != nil {
+				r.VTAMissing = append(r.VTAMissing, "VTA cross-check could not run: "+err.Error())
+			}
+		}
+		out = append(out, r)
 	}
 	return out, nil
 }
@@ -382,6 +392,20 @@ func report(prop string, runs []*run, known []knownEntry, tier string, seed int,
 		"assumptions": rules.Assumptions(prop),
 		"wall_s":      time.Since(start).Seconds(),
 		"violations":  violations,
+	}
+	if tier == "thorough" && len(runs) > 0 {
+		ev["coverage"].(map[string]interface{})["call_resolution_crosscheck"] = map[string]interface{}{
+			"what":    "whole-program VTA call graph (LoadAllSyntax): every repository callee VTA finds for a call through a function value must be among the callees the rules' resolver uses",
+			"edges":   runs[0].VTAChecked,
+			"missing": runs[0].VTAMissing,
+		}
+		fmt.Printf("   VTA cross-check of call resolution: %d dynamic edges into repository functions, %d not covered by the resolver\n", runs[0].VTAChecked, len(runs[0].VTAMissing))
+		for _, m := range runs[0].VTAMissing {
+			violations++
+			fmt.Printf("   UNDECIDED (fails closed) call resolution: %s\n", m)
+			fmt.Printf("VIOLATION property=%s replay=%s\n", prop, filepath.Join(verif, "evidence", prop+".json"))
+		}
+		ev["violations"] = violations
 	}
 	if tier == "thorough" && writeEvidence {
 		sens := sensitivity(prop, repo, verif)
